@@ -160,7 +160,13 @@ def main():
             nfiles += 1
             if not parses(text):
                 unparsable += 1
-        cases.append({'files': files, 'docformat': rng.choice(DOCFORMATS)})
+        case = {'files': files, 'docformat': rng.choice(DOCFORMATS)}
+        if rng.random() < 0.4:
+            # privacy rules that never match a root module (last segment starts with an upper-case letter / underscore)
+            lo = rng.choice('ABCDEFGHIJKLMNOPQRSTUVWXYZ_')
+            case['args'] = ['--privacy=%s:**.[%s-Z_]*' % (rng.choice(['HIDDEN', 'HIDDEN', 'PRIVATE', 'PUBLIC']), lo)
+                            for _ in range(rng.randint(1, 2))]
+        cases.append(case)
     for df in DOCFORMATS:
         cases.append(torture_project(df))
     # boundary projects: root names that coincide with generated pages, a lone empty module, deep nesting
@@ -199,6 +205,28 @@ def main():
                   'tag': 'all_hidden'})
     cases.append({'files': [['solo.py', 'class K:\n    """doc"""\n'], ['other.py', 'x = 1\n']], 'docformat': 'epytext',
                   'args': ['--privacy=HIDDEN:solo']})
+    # listings whose every entry is hidden (known subclasses, zope implementers / provided interfaces, bases, overrides)
+    hid = ('class Base:\n    """doc"""\n    def m(self): pass\nclass _H1(Base):\n    def m(self): pass\nclass _H2(Base): pass\n'
+           'class Mixed(Base): pass\nclass _H3(Mixed, _H1): pass\n'
+           'from zope.interface import Interface, implementer, Attribute\nclass IThing(Interface):\n    a = Attribute("a")\n    def m(): pass\n'
+           '@implementer(IThing)\nclass _HImpl:\n    def m(self): pass\nclass IHidden(Interface): pass\n@implementer(IHidden)\nclass Shown: pass\n')
+    for rules in (['--privacy=HIDDEN:hid._H*'], ['--privacy=HIDDEN:hid._H*', '--privacy=HIDDEN:hid.IHidden'], ['--privacy=HIDDEN:hid.Base'],
+                  ['--privacy=HIDDEN:hid.*'], ['--privacy=HIDDEN:**.m'], ['--privacy=PRIVATE:hid._H*', '--privacy=HIDDEN:hid.Mixed'],
+                  ['--privacy=PUBLIC:**', '--privacy=HIDDEN:hid._H1', '--privacy=HIDDEN:hid._H2', '--privacy=HIDDEN:hid.Mixed']):
+        cases.append({'files': [['hid.py', hid], ['other.py', 'from hid import Base\nclass Far(Base): pass\n']], 'docformat': 'epytext', 'args': rules})
+    # definitions that are not stored under their AST name in the scope being visited when the node is departed
+    cases.append({'files': [['props.py', 'class Base:\n    @property\n    def value(self): return 1\n    @value.setter\n    def value(self, v): pass\n'
+                                         'class Sub(Base):\n    @Base.value.setter\n    def value(self, v): pass\n    @Base.value.deleter\n    def value(self): pass\n'
+                                         '    @nosuch.other.setter\n    def other(self, v): pass\n    @Base.value.getter\n    def third(self): pass\n'
+                                         'def outer():\n    class Inner:\n        def m(self): pass\n    def inner(): pass\n    return Inner, inner\n'
+                                         'class A:\n    class B:\n        class C:\n            def f(self):\n                def g(): pass\n']],
+                  'docformat': 'epytext'})
+    # an object reparented (re-exported by a module imported from inside its body) while it is still being visited
+    cases.append({'files': [['amov.py', 'class K:\n    import bmov\n    def m(self): pass\ndef f():\n    import bmov\n'
+                                        'class L:\n    from bmov import z\n    class M: pass\n'],
+                            ['bmov.py', 'from amov import K, L, f\n__all__ = ["K", "L", "f"]\nz = 1\n']], 'docformat': 'epytext'})
+    cases.append({'files': [['zmov.py', 'class K:\n    import bmov2\n    class N:\n        def m(self): pass\n'],
+                            ['bmov2.py', 'from zmov import K\n__all__ = ["K"]\n']], 'docformat': 'epytext'})
     cases.append({'files': [['deep.py', 'x = ' + '[' * 60 + ']' * 60 + '\n' + 'y = ' + '(' * 150 + '1' + ')' * 150 + '\n']], 'docformat': 'epytext'})
     failures = []
     hist = {}
